@@ -247,6 +247,8 @@ def main(tier):
         rule_B(ck, an, {name: u})
         rule_C(ck, an, {name: u})
         rule_D(ck, an, {name: u})
+        import c17
+        c17.rule_B(ck, {name: u})   # the system matrix handed over by shared pointer is never modified
     ck.assumptions += ['arrays of vectors / scalars are treated per array, not per element (a kill of one element counts for the array)',
                        'member objects with their own methods (QR, nested solvers) are analysed in their own classes',
                        'callee effects are derived bottom-up from the instantiated bodies; recursion is closed coinductively',
